@@ -34,7 +34,8 @@ class Insert:
         self.where = where    # before / after / at_start / loop_end / loop_start
         self.anchor = anchor
         self.hint = 'hint' in tags   # a pure proof step: its failure alone makes the property undecided, not violated
-        self.tags = [t for t in tags if t != 'hint']
+        self.each = 'each' in tags   # insert at every statement that begins with the anchor
+        self.tags = [t for t in tags if t not in ('hint', 'each')]
         self.lines = []
         self.origin = origin
         self.loop = loop
